@@ -388,7 +388,12 @@ for pkg, m in mods.items():
                     "wraps": meta.wraps, "optional": bool(meta.optional),
                     "hint": canon(hints[f.name]) if hints is not None and f.name in hints else ["other", "unresolved"]})
             try:
-                i = c(); b = bytes(i); c().parse(b""); i.to_dict(); c.from_dict({}); c.FromString(b"")
+                # the class can be used: construct, serialise, parse; the Message API is still there (K9)
+                i = c(); b = bytes(i); c().parse(b""); c.FromString(b"")
+                for api in ("parse", "to_dict", "from_dict", "to_json", "from_json", "to_pydict", "from_pydict", "dump",
+                            "load", "is_set", "FromString", "SerializeToString"):
+                    if not callable(getattr(i, api, None)):
+                        raise TypeError(f"Message.{api} is shadowed by a field")
                 ent["smoke"] = "ok"
             except BaseException as e:
                 ent["smoke"] = f"{type(e).__name__}: {e}"[:300]
